@@ -184,7 +184,8 @@ func (n *refNode) Field(r node.FieldRequest, hnd *node.ValueHandle) error {
 		if lv.List != (sn.Kind == LeafList) {
 			n.st.problem("write %s: list-ness %v does not match schema", sn.Name, lv.List)
 		}
-		if want := FormatOf(sn.Type, sn.Kind == LeafList); hnd.Val.Format() != want {
+		// (the library keeps a list of binaries as the base64 text of every item: a string list)
+		if want := FormatOf(sn.Type, sn.Kind == LeafList); hnd.Val.Format() != want && !(want == val.FmtBinaryList && hnd.Val.Format() == val.FmtStringList) {
 			n.st.problem("write %s: value format %s, schema wants %s", sn.Name, hnd.Val.Format(), want)
 		}
 		if old := n.d.Leaves[sn.Name]; sn.IsKey() && old != nil && !lv.List && old.V[0] != lv.V[0] {
